@@ -301,3 +301,6 @@ def _update_AA(env, bd, du, opts, opts_svd, normalize=True, subtract_E=False, pr
     AA, info = expmv(f, AA, du, **opts, normalize=normalize, return_info=True)
     env._temp['expmv_ncv'][ibd] = info['ncv']
     env.bra.post_2site_(AA, bd, opts_svd)
+    if normalize:
+        psi = env.bra
+        psi.A[psi.pC] = psi.A[psi.pC] / psi.A[psi.pC].norm()  # truncation leaves the central block un-normalised
